@@ -1,4 +1,4 @@
-From QV Require Import model.Base model.Lang model.Types model.Tir model.Ceval model.Builder spec.Typing proofs.TypingProofs props.C05.
+From QV Require Import model.Base model.Lang model.Types model.Tir model.Ceval model.Builder spec.Typing proofs.TypingProofs proofs.BuilderInv proofs.BuilderSafe proofs.TypingSound props.C05.
 Check (C05_binary : forall E op lt rt s,
   match op with BoLAnd | BoLOr => False | _ => True end ->
   succeeds (binary_check E op lt rt) s = spec_binary E (opclass_of op) lt rt).
@@ -17,3 +17,20 @@ Check (eq_refl : spec_binary {| ce_classes := []; ce_enums := []; ce_objects := 
 Check (eq_refl : spec_binary {| ce_classes := []; ce_enums := []; ce_objects := []; ce_this := None |} OBitwise (DConcrete T_DOUBLE) (DConcrete T_DOUBLE) = None).
 Check (eq_refl : spec_assignable {| ce_classes := []; ce_enums := []; ce_objects := []; ce_this := None |} T_DOUBLE DConstInteger = false).
 Check (eq_refl : spec_castable {| ce_classes := []; ce_enums := []; ce_objects := []; ce_this := None |} T_DOUBLE DConstInteger = true).
+Check (C05_accepted_expressions_are_typed : forall E env s0, envwf (List.length (bs_locals s0)) env ->
+  forall e, frag env e = true -> forall s a s', Rel s0 s -> walk_rvalue E env e s = (V a, s') ->
+  Typed E (ctx_of env s0) e (operand_tdesc a)).
+Check (C05_ill_typed_expressions_are_rejected : forall E env s0 e,
+  envwf (List.length (bs_locals s0)) env -> frag env e = true ->
+  (forall d, ~ Typed E (ctx_of env s0) e d) -> forall a s', walk_rvalue E env e s0 <> (V a, s')).
+Check (C05_typed_example).
+(* the typing relation and the fragment are pinned by evaluation: a local identifier is in the fragment, a member access is not *)
+Check (eq_refl : frag [("x"%string, (0, DLet))] (EUnary UMinus (EIdent "x")) = true).
+Check (eq_refl : frag [("x"%string, (0, DLet))] (EMember (EIdent "x") "p") = false).
+Check (TyLogical : forall E G op b l r, bop_of op = Some b -> binop_class b = KLogical -> Typed E G l (DConcrete T_BOOL) -> Typed E G r (DConcrete T_BOOL) ->
+    Typed E G (EBinary op l r) (DConcrete T_BOOL)).
+Check (TyTernary : forall E G c a b da db t d, Typed E G c (DConcrete T_BOOL) -> Typed E G a da -> Typed E G b db -> common_concrete E da db = Some t ->
+    concrete d = Some t -> Typed E G (ETernary c a b) d).
+Check (TyBinary : forall E G op b l r dl dr t d, bop_of op = Some b -> binop_class b <> KLogical -> Typed E G l dl -> Typed E G r dr ->
+    spec_binary E (opclass_of b) dl dr = Some t -> concrete d = Some t -> Typed E G (EBinary op l r) d).
+Check (TyUnary : forall E G op u a da t d, uop_of op = Some u -> Typed E G a da -> spec_unary (uclass_of u) da = Some t -> concrete d = Some t -> Typed E G (EUnary op a) d).
